@@ -18,7 +18,8 @@ Dictionary keys are never touched.  `other` stands for every other object (None,
 -/
 import AutomataVerif.Model.Basic
 
-namespace AV
+namespace AV.VA
+open AV
 
 inductive PyVal
   | str (s : String)
@@ -160,4 +161,4 @@ def construct {κ δ : Type} (abs : κ → δ) (freeze : κ → κ) (v : δ → 
      | .error e => .error e)
   else .ok stored
 
-end AV
+end AV.VA
